@@ -172,13 +172,15 @@ package parser
 //@ ensures old(p.err) != nil ==> p.err != nil
 
 // The first error is kept ("errors are sticky", assumed above of the two trusted dispatchers): the only writers of
-// Parser.err are setError and peekError, and both leave an error that is already recorded alone.
-//@ scan[C03.err.writers] C03 fieldwriters Parser.err: setError peekError
+// Parser.err are setError, peekError, noPrefixParseFnError and nextToken, and each leaves an error that is already
+// recorded alone (nextToken: proved, C20.next.stuck; the other three return at once when p.err != nil).
+//@ scan[C03.err.writers] C03 fieldwriters Parser.err: setError peekError nextToken noPrefixParseFnError
 
 // An infix operator parses its right operand at exactly its own binding power (so equal powers associate to the
 // left) and builds Infix(left, operator literal, right) in that order.
 //@ func (*Parser).parseInfixExpr
 //@ props C01 C20
+//@ assume[params.wf] leftNode == nil || ref(leftNode) != nil
 //@ callpre[C20.layout.newline] parseExpression: p.err != nil || p.curToken.Type != token.NEWLINE
 //@ requires p != nil
 //@ nocontract nextToken setTokenError
@@ -244,6 +246,7 @@ package parser
 //@ props C03
 //@ trusted callpre
 //@ assume[recv.nonnil] p != nil
+//@ assume[params.wf] leftNode == nil || ref(leftNode) != nil
 //@ callpre[C03.ast.nonnil] NewIndex: arg1 != nil && arg2 != nil
 //@ callpre[C03.ast.nonnil] NewSlice: arg1 != nil
 
